@@ -160,8 +160,14 @@ class Native:
         env = dict(kani_run.BASE_ENV)
         env["VERIF_REPLAY"] = ";".join("%s=%s" % (k, v) for k, v in inputs.items() if v is not None)
         env["CARGO_TARGET_DIR"] = os.path.join(self.crate, "target_native")
-        p = subprocess.run(["cargo", "test", "--offline", "--lib", test, "--", "--exact", "--nocapture", "--test-threads=1"],
-                           cwd=self.crate, env=env, capture_output=True, text=True, timeout=900)
+        try:
+            p = subprocess.run(["cargo", "test", "--offline", "--lib", test, "--", "--exact", "--nocapture", "--test-threads=1"],
+                               cwd=self.crate, env=env, capture_output=True, text=True, timeout=420)
+        except subprocess.TimeoutExpired:
+            # the real code does not terminate on the replayed scenario (e.g. a loop that stops making progress): that is a
+            # reproduction of misbehaviour, reported as such
+            subprocess.run(["pkill", "-f", os.path.join(self.crate, "target_native")], capture_output=True)
+            return {"_ran": True, "_panicked": True, "_panic_msg": "the native replay %s did not terminate within 420 s" % test}
         out = {}
         for m in re.finditer(r"OUT (\w+)=(.*)$", p.stdout, re.M):
             v = m.group(2).strip()
@@ -798,6 +804,119 @@ C14_ID = {"Windows932": 932, "Windows936": 936, "Windows949": 949, "Windows950":
           "Windows1255": 1255, "Windows1256": 1256, "Windows1257": 1257, "Windows1258": 1258, "MacintoshRoman": 10000,
           "MacintoshCyrillic": 10007, "UsAscii": 20127, "Iso88591": 28591, "Iso88592": 28592, "Iso88593": 28593,
           "Iso88594": 28594, "Iso88595": 28595, "Iso88596": 28596, "Iso88597": 28597, "Iso88598": 28598, "Utf8": 65001}
+
+
+def c14_chunk_loop_group(mir, ctx):
+    """CodePage::encode's loop around the 1024-byte scratch buffer (non-ASCII branch), unrolled to 2
+    encoder calls (3 in the thorough tier).  encoding_rs's encode_from_utf8_without_replacement is an
+    uninterpreted call constrained only by its documented contract: 0 <= read <= remaining input,
+    0 <= written <= buffer length, and InputEmpty only when the whole remaining input was read."""
+    fn = mir.find(r"codepage::.*::encode$")
+    LEN = ctx.fresh_int("input_len", None, 0, 0x7fffffff)
+    BUF = 1024
+    calls = []
+
+    def term(v):
+        v = v.target if isinstance(v, RefV) else v
+        return v.term
+
+    def m_slice_from(ex, callee, args, pc, events):
+        r = ex.load(args[1])
+        start = r.fields[0] if isinstance(r, EnumV) and r.fields else r
+        if not isinstance(start, IntV):
+            raise EncodingError("string[..] with start %r" % (start,))
+        return [(pc, events + [("from", start.term)], OpaqueV("rest@%s" % start.term))]
+
+    def m_encode_call(ex, callee, args, pc, events):
+        rest = ex.load(args[1])
+        mm = re.match(r"^rest@(.*)$", getattr(rest, "what", ""))
+        if not mm:
+            raise EncodingError("the encoder is handed %r, not a tail of the input string" % (rest,))
+        start = mm.group(1)
+        i = sum(1 for e in events if e[0] == "enc")
+        res = ctx.fresh_int("encoder_result_%d" % i, None, 0, 2)
+        rd = ctx.fresh_int("read_%d" % i, None, 0, 0x7fffffff)
+        wr = ctx.fresh_int("written_%d" % i, None, 0, BUF)
+        contract = ["(<= (+ %s %s) %s)" % (start, rd.term, LEN.term), "(=> (= %s 0) (= (+ %s %s) %s))" % (res.term, start, rd.term, LEN.term), "(<= %s %s)" % (start, LEN.term)]
+        return [(pc + contract, events + [("enc", i, start, rd.term, wr.term, res.term)],
+                 TupleV([EnumV(discr=IntV(res.term, "isize")), IntV(rd.term, "usize"), IntV(wr.term, "usize")]))]
+
+    def m_take(ex, callee, args, pc, events):
+        r = ex.load(args[1])
+        end = r.fields[0] if isinstance(r, EnumV) and r.fields else r
+        return [(pc, events + [("take", getattr(end, "term", repr(end)))], OpaqueV("chunk"))]
+
+    models = [
+        (r"<CodePage as PartialEq>::eq$", lambda ex, callee, args, pc, events: [(pc, events, BoolV("false", False))]),
+        (r"<str as Index<std::ops::RangeFrom<usize>>>::index$", m_slice_from),
+        (r"Encoder::encode_from_utf8_without_replacement$", m_encode_call),
+        (r"as Index<RangeTo<usize>>>::index$|as Index<std::ops::RangeTo<usize>>>::index$", m_take),
+        (r"Vec::<u8>::extend_from_slice$", lambda ex, callee, args, pc, events: [(pc, events + [("append", getattr(ex.load(args[1]), "what", "?"))], TupleV([]))]),
+        (r"Vec::<u8>::push$", lambda ex, callee, args, pc, events: [(pc, events + [("qmark", term(ex.load(args[1])))], TupleV([]))]),
+    ]
+    ex = M.Exec(mir, ctx, models=models, havoc_unknown=True)
+    ex.max_revisit = deeper(3)
+    ex.no_inline = [r"CodePage::encoding$", r"ascii_encode$"]
+    outs = ex.run(fn, [RefV(OpaqueV("codepage")), OpaqueV("string")])
+    outs = outs + ex._pending_panics
+    ex._pending_panics = []
+    g = Group("encode_chunk_loop", ["codepage::CodePage::encode (loop around the scratch buffer, unrolled)"], confirm=_c14_chunk_confirm,
+              note="for every behaviour of the encoder allowed by its contract, over <= 2 encoder calls: each call is handed exactly the input "
+                   "not yet read, exactly the bytes it wrote are appended, '?' is appended exactly after an Unmappable result, and encode returns "
+                   "only after a call reported InputEmpty -- i.e. with the whole string consumed, whatever its length; no arithmetic panic")
+    n = 0
+    for k, o in enumerate(outs):
+        if o.kind == "panic":
+            g.queries.append(Query("panic_%d" % k, o.pc, "unsat", get={"input_len": LEN.term}, note="encode can panic: %s" % o.msg))
+            continue
+        if o.kind != "return":
+            continue
+        n += 1
+        encs = [e for e in o.events if e[0] == "enc"]
+        seq = [e for e in o.events if e[0] in ("enc", "take", "append", "qmark")]
+        total = "0"
+        for e in encs:
+            g.queries.append(Query("start_%d_%d" % (k, e[1]), o.pc + ["(not (= %s %s))" % (e[2], total)], "unsat", note="encoder call %d is not handed exactly the input that is still unread" % e[1]))
+            total = "(+ %s %s)" % (total, e[3])
+        # per call: take == written, one append, '?' iff Unmappable
+        for idx, e in enumerate(encs):
+            nxt = [x for x in seq[seq.index(e) + 1:]]
+            upto = []
+            for x in nxt:
+                if x[0] == "enc":
+                    break
+                upto.append(x)
+            takes = [x for x in upto if x[0] == "take"]
+            apps = [x for x in upto if x[0] == "append"]
+            qm = [x for x in upto if x[0] == "qmark"]
+            if len(takes) != 1 or len(apps) != 1:
+                g.queries.append(Query("append_%d_%d" % (k, idx), o.pc, "unsat", note="after encoder call %d the bytes written are not appended exactly once" % idx))
+            else:
+                g.queries.append(Query("taken_%d_%d" % (k, idx), o.pc + ["(not (= %s %s))" % (takes[0][1], e[4])], "unsat", note="the bytes appended after encoder call %d are not exactly the `written` bytes" % idx))
+            if qm:
+                g.queries.append(Query("qmark_%d_%d" % (k, idx), o.pc + ["(not (= %s 2))" % e[5]], "unsat", note="'?' is appended although the encoder did not report an unmappable character"))
+                if any(q[1] != "63" for q in qm) or len(qm) != 1:
+                    g.queries.append(Query("qmark_val_%d_%d" % (k, idx), o.pc, "unsat", note="the replacement appended is not a single '?'"))
+            else:
+                g.queries.append(Query("noqmark_%d_%d" % (k, idx), o.pc + ["(= %s 2)" % e[5]], "unsat", note="an unmappable character is dropped without the '?' replacement"))
+        if not encs:
+            g.queries.append(Query("nocall_%d" % k, o.pc, "unsat", note="encode returns without calling the encoder"))
+        else:
+            g.queries.append(Query("complete_%d" % k, o.pc + ["(not (= %s %s))" % (total, LEN.term)], "unsat", get={"input_len": LEN.term},
+                                   note="encode returns although part of the string has not been encoded (the encoder stopped for a reason other than InputEmpty)"))
+        g.witness.append(Query("w_%d" % k, o.pc, "sat"))
+    if n < 2:
+        raise EncodingError("chunk loop: only %d returning paths" % n)
+    return [g]
+
+
+def _c14_chunk_confirm(model, native):
+    out = native("native::c14::replay_c14_chunks", {})
+    if not out.get("_ran"):
+        return None, "native replay did not run"
+    if out.get("_panicked"):
+        return True, "native chunk replay panicked: %s" % out.get("_panic_msg")
+    return (out.get("differs") == 1), (out.get("witness") or "all %s long strings encode as the concatenation of their characters natively" % out.get("checked"))
 
 
 def _c14_confirm(model, native):
@@ -3736,7 +3855,7 @@ def _proto(which):
     return build
 
 
-BUILDERS = {"C18": c18_groups, "C19": c19_groups, "C14": c14_groups, "C20": c20_all, "C09": c20_groups,
+BUILDERS = {"C18": c18_groups, "C19": c19_groups, "C14": (lambda mir, ctx: c14_groups(mir, ctx) + c14_chunk_loop_group(mir, ctx)), "C20": c20_all, "C09": c20_groups,
             "C01": _proto({"mutators", "finish", "close"}), "C10": (lambda mir, ctx: _proto({"mutators", "finish"})(mir, ctx) + c10_set_codepage_group(mir, ctx) + c10_size_law_group(mir, ctx)),
             "C15": _proto({"finish", "close"}), "C16": (lambda mir, ctx: _proto({"readonly"})(mir, ctx) + c16_loaded_pool_group(mir, ctx)), "C08": (lambda mir, ctx: c08_all(mir, ctx) + _proto({"finish"})(mir, ctx)), "C04": (lambda mir, ctx: _proto({"reject"})(mir, ctx) + c04_create_table_group(mir, ctx) + c05_update_group(mir, ctx) + c05_insert_group(mir, ctx)), "C11": c11_all, "C07": c07_insert_gate_group, "C12": c12_all, "C05": c05_all, "C13": c13_constructor_group, "C03": c03_all, "C06": c06_enum_gate_group}
 
